@@ -50,20 +50,34 @@ var c15Queries = []string{
 	`subscription S($s: Boolean = false) { obj { id maybe @skip(if: $s) nn } }`,
 	`subscription { k: obj { id } }`,
 	`subscription { strict }`, // a non-null root field: a failing event leaves no data at all
+	// variables whose coercion is not idempotent (enum with internal values, custom scalar)
+	`subscription P($e: Ev, $c: Cs = "dflt") { pick(e: $e, c: $c) }`,
 }
+
+var c15Variables = map[string]interface{}{"e": "B", "c": "cv"}
 
 func c15Model() *model.Schema {
 	t := model.T
 	f := func(n, ty string) *model.FieldDef { return &model.FieldDef{Name: n, Type: t(ty)} }
 	return &model.Schema{Query: "Q", Subscription: "S", Types: []*model.TypeDef{
+		{Kind: model.KEnum, Name: "Ev", Values: []*model.EnumVal{{Name: "A", Internal: model.Int(10)}, {Name: "B", Internal: model.Int(11)}}},
+		{Kind: model.KScalar, Name: "Cs"},
 		{Kind: model.KObject, Name: "EvObj", Fields: []*model.FieldDef{f("id", "Int"), f("nn", "String!"), f("maybe", "String")}},
 		{Kind: model.KObject, Name: "Q", Fields: []*model.FieldDef{f("a", "String")}},
-		{Kind: model.KObject, Name: "S", Fields: []*model.FieldDef{f("tick", "Int"), f("obj", "EvObj"), f("strict", "Int!")}},
+		{Kind: model.KObject, Name: "S", Fields: []*model.FieldDef{f("tick", "Int"), f("obj", "EvObj"), f("strict", "Int!"),
+			{Name: "pick", Type: t("String"), Args: []*model.ArgDef{{Name: "e", Type: t("Ev")}, {Name: "c", Type: t("Cs")}}}}},
 	}}
 }
 
 // expectedFor computes the response the subscription's selection gives for one event.
 func expectedFor(query int, ev *subEvent) (data string, nErrors int) {
+	if query == 6 {
+		// the resolver reports the coerced arguments: the enum's internal value, the scalar's parsed form
+		if ev.Payload == "nilEvent" {
+			return `{"pick":"none:11:P:cv"}`, 0
+		}
+		return fmt.Sprintf(`{"pick":"%d:11:P:cv"}`, ev.ID), 0
+	}
 	if query == 5 {
 		// strict: Int! fails for every payload but ok / gated, and the null reaches data
 		if ev.Payload == "ok" || ev.Payload == "gated" {
@@ -191,6 +205,16 @@ func c15Oracle(c *SubCase) (msg string, nontrivial bool) {
 				}
 				return nil, nil
 			},
+			"S.pick": func(p graphql.ResolveParams) (interface{}, error) {
+				id := "none"
+				if e := ev(p); e != nil {
+					if e.Payload == "gated" {
+						<-gate
+					}
+					id = fmt.Sprint(e.ID)
+				}
+				return fmt.Sprintf("%s:%v:%v", id, p.Args["e"], p.Args["c"]), nil
+			},
 			"S.strict": func(p graphql.ResolveParams) (interface{}, error) {
 				e := ev(p)
 				if e == nil {
@@ -261,7 +285,7 @@ func c15Oracle(c *SubCase) (msg string, nontrivial bool) {
 				pan = fmt.Sprint(r)
 			}
 		}()
-		results = graphql.Subscribe(graphql.Params{Schema: b.Schema, RequestString: text, Context: ctx})
+		results = graphql.Subscribe(graphql.Params{Schema: b.Schema, RequestString: text, VariableValues: c15Variables, Context: ctx})
 	}()
 	if pan != "" {
 		return "Subscribe panicked: " + pan, false
